@@ -1,10 +1,193 @@
-(* Property C10 — theorems only.  Model: Model/C10_RealOps.v; real instance and lemmas: Proofs/C10_RealOps.v *)
-From Coq Require Import List Reals.
+(* Property C10 — theorems only.
+   Model: Model/C10_RealOps.v (deap/tools/crossover.py, deap/tools/mutation.py), here at its
+   real-number instance [ROps eps] of Proofs/C10_RealOps.v: + - * / exact, x ** y = [pwR]
+   (defined exactly where CPython's float ** yields a float for a base >= 0; a negative base counts
+   as undefined), math.exp = exp, the guard constant 1e-14 = any eps >= 0.
+
+   Reading of the outcomes:  [Ok]   the operator returns;
+                             [Raise] Python raises (ZeroDivisionError, IndexError) or a complex
+                                     number would appear;
+                             [Stuck] the supplied event stream does not fit the program.
+   "Finite real gene" = the model returns [Ok] with a real number (DESIGN Appendix B.6); IEEE
+   rounding/overflow is outside these theorems.
+
+   [rs us] is the event stream in which random.random() returns us_0, us_1, ...;
+   [in01 u] is 0 <= u < 1.
+   [spec k m Q]  :=  for every us with all draws in [0,1) and at least k of them, m (rs us) = Ok (a, rs us')
+                     with us = pre ++ us', |pre| <= k and Q a        (see C10_spec_meaning). *)
+From Coq Require Import List Reals Lra Lia.
 From DV Require Import Model.C10_RealOps Proofs.C10_RealOps.
 Import ListNotations.
 Local Open Scope R_scope.
 
-Theorem C10_blend_gene : forall eps alpha x1 x2, 0 <= alpha ->
-  spec 1 (blend_gene (ROps eps) alpha x1 x2) (blend_post alpha x1 x2).
-Proof. exact blend_gene_spec. Qed.
-Print Assumptions C10_blend_gene.
+Theorem C10_spec_meaning : forall A k (m : M R A) (Q : A -> Prop), spec k m Q ->
+  forall us, Forall in01 us -> (k <= length us)%nat ->
+  exists a us', m (rs us) = Ok (a, rs us') /\ Q a /\ Forall in01 us' /\
+                (length us' <= length us <= length us' + k)%nat.
+Proof. exact @spec_elim. Qed.
+Print Assumptions C10_spec_meaning.
+
+(* ---- bounded SBX: defined (every divisor non-zero, every power base in its domain) and in bounds ----
+   for any crowding degree eta >= 0, scalar or per-gene bounds (a sequence at least `size` long),
+   parents inside their bounds at every locus below size = min(len); low_i <= up_i follows from that.
+   [inbl lows ups l]: lows_i <= l_i <= ups_i wherever all three exist. *)
+Theorem C10_sbx_bounded_defined_in_bounds : forall eps, 0 <= eps -> forall eta low up ind1 ind2,
+  0 <= eta ->
+  let size := Nat.min (length ind1) (length ind2) in
+  let lows := firstn size (bvals low size) in
+  let ups := firstn size (bvals up size) in
+  bnd_long low size -> bnd_long up size ->
+  inbl lows ups ind1 -> inbl lows ups ind2 ->
+  forall us, Forall in01 us -> (3 * size <= length us)%nat ->
+  exists c1 c2 us',
+    cx_sbx_bounded (ROps eps) eta low up ind1 ind2 (rs us) = Ok ((c1, c2), rs us') /\
+    length c1 = length ind1 /\ length c2 = length ind2 /\
+    inbl lows ups c1 /\ inbl lows ups c2 /\
+    (forall i, (i < size)%nat -> nth i lows 0 <= nth i c1 0 <= nth i ups 0 /\
+                                 nth i lows 0 <= nth i c2 0 <= nth i ups 0) /\
+    (forall i, (size <= i)%nat -> nth i c1 0 = nth i ind1 0 /\ nth i c2 0 = nth i ind2 0).
+Proof. exact cx_sbx_bounded_defined_in_bounds. Qed.
+Print Assumptions C10_sbx_bounded_defined_in_bounds.
+
+(* ---- bounded polynomial mutation: defined and in bounds, any eta >= 0, any indpb ---- *)
+Theorem C10_poly_defined_in_bounds : forall eps eta low up indpb ind,
+  0 <= eta ->
+  let size := length ind in
+  let lows := bvals low size in
+  let ups := bvals up size in
+  bnd_long low size -> bnd_long up size ->
+  ltl3 lows ups ind ->                       (* low_i < up_i at every gene *)
+  inbl lows ups ind ->                       (* low_i <= x_i <= up_i *)
+  forall us, Forall in01 us -> (2 * size <= length us)%nat ->
+  exists c us',
+    mut_poly (ROps eps) eta low up indpb ind (rs us) = Ok (c, rs us') /\
+    length c = length ind /\
+    forall i, (i < length ind)%nat -> nth i lows 0 <= nth i c 0 <= nth i ups 0.
+Proof. exact mut_poly_defined_in_bounds. Qed.
+Print Assumptions C10_poly_defined_in_bounds.
+
+(* ---- sums: c1_i + c2_i = x1_i + x2_i at every locus, for ANY event stream (any gamma / beta) ---- *)
+Theorem C10_blend_sum : forall eps alpha ind1 ind2 s c1 c2 s',
+  cx_blend (ROps eps) alpha ind1 ind2 s = Ok ((c1, c2), s') ->
+  length c1 = length ind1 /\ length c2 = length ind2 /\
+  forall i, nth i c1 0 + nth i c2 0 = nth i ind1 0 + nth i ind2 0.
+Proof. exact cx_blend_sum. Qed.
+Print Assumptions C10_blend_sum.
+
+Theorem C10_sbx_sum : forall eps eta ind1 ind2 s c1 c2 s',
+  cx_sbx (ROps eps) eta ind1 ind2 s = Ok ((c1, c2), s') ->
+  length c1 = length ind1 /\ length c2 = length ind2 /\
+  forall i, nth i c1 0 + nth i c2 0 = nth i ind1 0 + nth i ind2 0.
+Proof. exact cx_sbx_sum. Qed.
+Print Assumptions C10_sbx_sum.
+
+Theorem C10_es_blend_sum : forall eps alpha g1 s1 g2 s2 s a b c d s',
+  cx_es_blend (ROps eps) alpha g1 s1 g2 s2 s = Ok ((a, b, c, d), s') ->
+  sum_kept g1 g2 a c /\ sum_kept s1 s2 b d.
+Proof. exact cx_es_blend_sum. Qed.
+Print Assumptions C10_es_blend_sum.
+
+(* ---- blend: defined; children within [min - alpha*w, max + alpha*w]; sums kept; tails untouched ---- *)
+Theorem C10_blend_interval : forall eps alpha ind1 ind2, 0 <= alpha ->
+  spec (Nat.min (length ind1) (length ind2)) (cx_blend (ROps eps) alpha ind1 ind2)
+       (fun c => blend_ok alpha ind1 ind2 (fst c) (snd c)).
+Proof. exact cx_blend_spec. Qed.
+Print Assumptions C10_blend_interval.
+
+Theorem C10_es_blend_interval : forall eps alpha g1 s1 g2 s2, 0 <= alpha ->
+  spec (2 * length g1) (cx_es_blend (ROps eps) alpha g1 s1 g2 s2)
+    (fun r => let '(a, b, c, d) := r in
+       sum_kept g1 g2 a c /\ sum_kept s1 s2 b d /\
+       (forall i, (i < min4 g1 s1 g2 s2)%nat ->
+          within alpha (nth i g1 0) (nth i g2 0) (nth i a 0) /\ within alpha (nth i g1 0) (nth i g2 0) (nth i c 0) /\
+          within alpha (nth i s1 0) (nth i s2 0) (nth i b 0) /\ within alpha (nth i s1 0) (nth i s2 0) (nth i d 0)) /\
+       (forall i, (min4 g1 s1 g2 s2 <= i)%nat ->
+          nth i a 0 = nth i g1 0 /\ nth i b 0 = nth i s1 0 /\ nth i c 0 = nth i g2 0 /\ nth i d 0 = nth i s2 0)).
+Proof. exact cx_es_blend_spec_idx. Qed.
+Print Assumptions C10_es_blend_interval.
+
+(* ---- SBX: defined for every eta >= 0 (beta's base is >= 0, exponent 1/(eta+1) > 0), sums kept ---- *)
+Theorem C10_sbx_defined_sum : forall eps eta ind1 ind2, 0 <= eta ->
+  spec (Nat.min (length ind1) (length ind2)) (cx_sbx (ROps eps) eta ind1 ind2)
+       (fun c => sum_kept ind1 ind2 (fst c) (snd c)).
+Proof. exact cx_sbx_spec. Qed.
+Print Assumptions C10_sbx_defined_sum.
+
+(* ---- Gaussian mutation ---- *)
+Theorem C10_gauss_len : forall eps mu sigma indpb ind s c s',
+  mut_gaussian (ROps eps) mu sigma indpb ind s = Ok (c, s') -> length c = length ind.
+Proof. exact mut_gaussian_length. Qed.
+Print Assumptions C10_gauss_len.
+
+Theorem C10_gauss_indpb0_identity : forall eps mu sigma ind s c s', draws_ok s ->
+  mut_gaussian (ROps eps) mu sigma 0 ind s = Ok (c, s') -> c = ind.
+Proof. exact mut_gaussian_indpb0. Qed.
+Print Assumptions C10_gauss_indpb0_identity.
+
+(* ... and it does return, consuming one random() per gene and no gauss() *)
+Theorem C10_gauss_indpb0_defined : forall eps mu sigma ind,
+  bnd_long mu (length ind) -> bnd_long sigma (length ind) ->
+  spec (length ind) (mut_gaussian (ROps eps) mu sigma 0 ind) (fun c => c = ind).
+Proof. exact mut_gaussian_indpb0_spec. Qed.
+Print Assumptions C10_gauss_indpb0_defined.
+
+(* ---- log-normal self-adaptive mutation ---- *)
+(* lengths kept; every strategy value is multiplied by a strictly positive factor (exp(...) or 1) *)
+Theorem C10_eslognormal_len_scaled : forall eps c indpb g st s g' st' s',
+  mut_es_lognormal (ROps eps) c indpb g st s = Ok ((g', st'), s') ->
+  length g' = length g /\ length st' = length st /\ Forall2 scaled st st'.
+Proof. exact mut_es_lognormal_inv. Qed.
+Print Assumptions C10_eslognormal_len_scaled.
+
+Theorem C10_eslognormal_strategy_pos : forall eps c indpb g st s g' st' s',
+  mut_es_lognormal (ROps eps) c indpb g st s = Ok ((g', st'), s') ->
+  forall i, 0 < nth i st 0 -> 0 < nth i st' 0.
+Proof. exact mut_es_lognormal_strategy_pos. Qed.
+Print Assumptions C10_eslognormal_strategy_pos.
+
+Theorem C10_eslognormal_indpb0_identity : forall eps c g st s g' st' s', draws_ok s ->
+  mut_es_lognormal (ROps eps) c 0 g st s = Ok ((g', st'), s') -> g' = g /\ st' = st.
+Proof. exact mut_es_lognormal_indpb0. Qed.
+Print Assumptions C10_eslognormal_indpb0_identity.
+
+(* ---- all seven operators return the very objects they were given (individual and strategy list) ---- *)
+Theorem C10_same_objects : forall eps,
+  (forall alpha i1 i2 s o1 o2 s', op_blend (ROps eps) alpha i1 i2 s = Ok ((o1, o2), s') ->
+     same_obj i1 o1 /\ same_obj i2 o2 /\ strat o1 = strat i1 /\ strat o2 = strat i2) /\
+  (forall eta i1 i2 s o1 o2 s', op_sbx (ROps eps) eta i1 i2 s = Ok ((o1, o2), s') ->
+     same_obj i1 o1 /\ same_obj i2 o2 /\ strat o1 = strat i1 /\ strat o2 = strat i2) /\
+  (forall eta low up i1 i2 s o1 o2 s', op_sbx_bounded (ROps eps) eta low up i1 i2 s = Ok ((o1, o2), s') ->
+     same_obj i1 o1 /\ same_obj i2 o2 /\ strat o1 = strat i1 /\ strat o2 = strat i2) /\
+  (forall alpha i1 i2 s o1 o2 s', op_es_blend (ROps eps) alpha i1 i2 s = Ok ((o1, o2), s') ->
+     same_obj i1 o1 /\ same_obj i2 o2) /\
+  (forall mu sigma indpb i s o s', op_gaussian (ROps eps) mu sigma indpb i s = Ok (o, s') ->
+     same_obj i o /\ strat o = strat i) /\
+  (forall eta low up indpb i s o s', op_poly (ROps eps) eta low up indpb i s = Ok (o, s') ->
+     same_obj i o /\ strat o = strat i) /\
+  (forall c indpb i s o s', op_es_lognormal (ROps eps) c indpb i s = Ok (o, s') -> same_obj i o).
+Proof.
+  intro eps. split; [|split; [|split; [|split; [|split; [|split]]]]]; intros.
+  - eapply op_blend_same; eassumption.
+  - eapply op_sbx_same; eassumption.
+  - eapply op_sbx_bounded_same; eassumption.
+  - eapply op_es_blend_same; eassumption.
+  - eapply op_gaussian_same; eassumption.
+  - eapply op_poly_same; eassumption.
+  - eapply op_es_lognormal_same; eassumption.
+Qed.
+Print Assumptions C10_same_objects.
+
+(* ---- non-vacuity: the hypotheses are satisfiable, with genes exactly on a bound and equal parents ---- *)
+Example C10_nonvacuous :
+  let ind1 := [0; 1; / 2] in let ind2 := [1; 1; / 4] in
+  let size := Nat.min (length ind1) (length ind2) in
+  bnd_long (Scalar 0) size /\ bnd_long (PerGene [1; 1; 1; 7]) size /\
+  inbl (firstn size (bvals (Scalar 0) size)) (firstn size (bvals (PerGene [1; 1; 1; 7]) size)) ind1 /\
+  inbl (firstn size (bvals (Scalar 0) size)) (firstn size (bvals (PerGene [1; 1; 1; 7]) size)) ind2 /\
+  ltl3 (bvals (Scalar 0) 3) (bvals (PerGene [1; 1; 1; 7]) 3) ind1 /\
+  Forall in01 [0; / 2; / 4; 0; 0; 0; 0; 0; / 3] /\ draws_ok (rs [0; / 2]).
+Proof.
+  cbn. unfold inb, in01. repeat split; try lia; try lra.
+  - repeat constructor; lra.
+  - repeat constructor; unfold in01; lra.
+Qed.
